@@ -1,5 +1,6 @@
 import CssVerif.Lemmas.TokLex2
 import CssVerif.Lemmas.TokComment
+import CssVerif.Lemmas.TokStrItems
 /-!
 # Lexeme separation for all token classes (`Lex2`, `render2`, `expectedAll`)
 -/
@@ -33,9 +34,9 @@ the item is yielded unless it is a comment and comments are off -/
 theorem loop_step2 (doC : Bool) (fuel : Nat) (w stop : Cps) (line col : Nat) (name : String)
     (hw : w ≠ []) (hfast : ∀ c t, w = c :: t → fastChars.contains c = false)
     (hscan : scan false doC (w ++ stop) productions = .hit name w.length)
-    (hval : valueOf (w ++ stop) name w = some ⟨name, w, w⟩) :
+    (v : Cps) (hval : valueOf (w ++ stop) name w = some ⟨name, v, w⟩) :
     ∃ line' col', loop false doC (fuel + 1) (w ++ stop) line col =
-      Res.cons ⟨name, w, line, col, w, w, doC || name != "COMMENT"⟩ (loop false doC fuel stop line' col') := by
+      Res.cons ⟨name, v, line, col, w, w, doC || name != "COMMENT"⟩ (loop false doC fuel stop line' col') := by
   cases w with
   | nil => exact absurd rfl hw
   | cons c t =>
@@ -58,6 +59,7 @@ inductive Lex2 where
   | urange (u h : Nat) (hs : Cps)          -- UNICODE-RANGE: `U+`, 1-6 hex digits or `?`
   | cmt (body : Cps)                       -- COMMENT: `/*`, a body in which no `*/` ends, `*/`
   | cdc                                    -- CDC `-->`
+  | strI (q : Nat) (its : List SItem)      -- STRING with escapes / line continuations: quote, items, quote
 
 def Lex2.text : Lex2 → Cps
   | .old t => t.text
@@ -67,6 +69,7 @@ def Lex2.text : Lex2 → Cps
   | .urange u h hs => u :: 43 :: h :: hs
   | .cmt body => 47 :: 42 :: body ++ [42, 47]
   | .cdc => cdcText
+  | .strI q its => q :: flat its ++ [q]
 
 def Lex2.typ : Lex2 → String
   | .old t => t.typ
@@ -76,6 +79,12 @@ def Lex2.typ : Lex2 → String
   | .urange _ _ _ => "UNICODE-RANGE"
   | .cmt _ => "COMMENT"
   | .cdc => "CDC"
+  | .strI _ _ => "STRING"
+
+/-- the expected token value: the text itself, except for strings with escapes (one-pass decoding) -/
+def Lex2.value : Lex2 → Cps
+  | .strI q its => stringValue (q :: flat its ++ [q])
+  | t => t.text
 
 def Lex2.WF : Lex2 → Prop
   | .old t => t.WF
@@ -85,6 +94,7 @@ def Lex2.WF : Lex2 → Prop
   | .urange u h hs => IsU u ∧ (∀ x ∈ h :: hs, inR hexq x = true) ∧ (h :: hs).length ≤ 6
   | .cmt body => firstClose (body ++ [42]) = none
   | .cdc => True
+  | .strI q its => (q = 34 ∨ q = 39) ∧ ∀ i ∈ its, i.WF q
 
 /-- the lexemes joined by single spaces -/
 def render2 : List Lex2 → Cps
@@ -95,8 +105,8 @@ def render2 : List Lex2 → Cps
 /-- all (type, value) pairs, comments included: the tokens with an S token between neighbours -/
 def expectedAll : List Lex2 → List (String × Cps)
   | [] => []
-  | [t] => [(t.typ, t.text)]
-  | t :: u :: ts => (t.typ, t.text) :: ("S", [32]) :: expectedAll (u :: ts)
+  | [t] => [(t.typ, t.value)]
+  | t :: u :: ts => (t.typ, t.value) :: ("S", [32]) :: expectedAll (u :: ts)
 
 theorem Lex.typ_ne_comment (t : Lex) (h : t.WF) : (t.typ != "COMMENT") = true := by
   cases t with
@@ -130,14 +140,14 @@ theorem not_fast_pt (c : Nat) (h : (fastChars.all fun f => f != c) = true) : fas
 
 theorem lex2_step (doC : Bool) (t : Lex2) (h : t.WF) (stop : Cps) (hs : Sep stop) (fuel line col : Nat) :
     ∃ line' col', loop false doC (fuel + 1) (t.text ++ stop) line col =
-      Res.cons ⟨t.typ, t.text, line, col, t.text, t.text, doC || t.typ != "COMMENT"⟩
+      Res.cons ⟨t.typ, t.value, line, col, t.text, t.text, doC || t.typ != "COMMENT"⟩
         (loop false doC fuel stop line' col') := by
   cases t with
   | old t =>
     obtain ⟨l', c', hstep⟩ := lex_step doC t h stop hs fuel line col
     refine ⟨l', c', ?_⟩
     have : (doC || t.typ != "COMMENT") = true := by rw [Lex.typ_ne_comment t h]; simp
-    simp only [Lex2.text, Lex2.typ, this]
+    simp only [Lex2.text, Lex2.typ, Lex2.value, this]
     exact hstep
   | str q body =>
     obtain ⟨hq, hb⟩ := h
@@ -210,6 +220,16 @@ theorem lex2_step (doC : Bool) (t : Lex2) (h : t.WF) (stop : Cps) (hs : Sep stop
     · intro c t e; simp only [cdcText, List.cons.injEq] at e; obtain ⟨rfl, _⟩ := e; decide
     · exact scan_cdc doC stop
     · exact valueOf_plain _ _ _ (by decide) (by decide)
+  | strI q its =>
+    obtain ⟨hq, hi⟩ := h
+    apply loop_step2 doC fuel (q :: flat its ++ [q]) stop line col "STRING" (by simp)
+    · intro c t e; simp only [List.cons_append, List.cons.injEq] at e; obtain ⟨rfl, _⟩ := e
+      rcases hq with rfl | rfl <;> decide
+    · have := scan_string_items doC q hq its hi stop
+      simpa [List.append_assoc] using this
+    · have hu : unescTypes.contains "STRING" = true := by decide
+      have hc : cleanTypes.contains "STRING" = true := by decide
+      simp only [valueOf, hu, hc, if_true, subS_eq_stringValue, Lex2.value]
 
 theorem lex2_head (t : Lex2) (h : t.WF) : ∃ c w, t.text = c :: w ∧ inR lexHeads c = true := by
   cases t with
@@ -231,6 +251,9 @@ theorem lex2_head (t : Lex2) (h : t.WF) : ∃ c w, t.text = c :: w ∧ inR lexHe
     rcases h.1 with rfl | rfl <;> decide
   | cmt body => exact ⟨47, 42 :: body ++ [42, 47], rfl, by decide⟩
   | cdc => exact ⟨45, [45, 62], rfl, by decide⟩
+  | strI q its =>
+    refine ⟨q, flat its ++ [q], rfl, ?_⟩
+    rcases h.1 with rfl | rfl <;> decide
 
 theorem render2_head (t : Lex2) (ts : List Lex2) (h : t.WF) :
     ∃ c w, render2 (t :: ts) = c :: w ∧ inR lexHeads c = true := by
@@ -239,13 +262,18 @@ theorem render2_head (t : Lex2) (ts : List Lex2) (h : t.WF) :
   | nil => exact ⟨c, w, hw, hc⟩
   | cons u us => exact ⟨c, w ++ 32 :: render2 (u :: us), by simp [render2, hw], hc⟩
 
+theorem lex2_found_value (t : Lex2) : t.typ ≠ "STRING" → t.text = t.value := by
+  intro h
+  cases t <;> first | rfl | exact absurd rfl h
+
 /-- every item is yielded unless it is a comment and comments are off -/
 def EmitOK (doC : Bool) (it : Item) : Prop := it.emit = (doC || it.typ != "COMMENT")
 
 theorem loop_lexemes2 (doC : Bool) : ∀ (ts : List Lex2), (∀ t ∈ ts, t.WF) → ∀ (fuel line col : Nat),
     (render2 ts).length < fuel →
       (loop false doC fuel (render2 ts) line col).items.map proj = expectedAll ts ∧
-      ∀ it ∈ (loop false doC fuel (render2 ts) line col).items, EmitOK doC it ∧ it.found = it.value := by
+      ∀ it ∈ (loop false doC fuel (render2 ts) line col).items,
+        EmitOK doC it ∧ (it.typ ≠ "STRING" → it.found = it.value) := by
   intro ts
   induction ts with
   | nil =>
@@ -262,6 +290,7 @@ theorem loop_lexemes2 (doC : Bool) : ∀ (ts : List Lex2), (∀ t ∈ ts, t.WF) 
       simp only [List.append_nil] at hstep
       simp only [render2, hstep, Res.cons, loop_nil_items, expectedAll]
       simp [proj, EmitOK]
+      exact lex2_found_value t
     | cons u us =>
       have hu : u.WF := hts u (by simp)
       obtain ⟨l1, c1, hstep⟩ := lex2_step doC t ht (32 :: render2 (u :: us)) (Or.inr ⟨_, rfl⟩) k line col
@@ -277,8 +306,8 @@ theorem loop_lexemes2 (doC : Bool) : ∀ (ts : List Lex2), (∀ t ∈ ts, t.WF) 
       refine ⟨by simp [proj, this.1], ?_⟩
       intro it hit
       rcases hit with rfl | rfl | hit
-      · exact ⟨rfl, rfl⟩
-      · exact ⟨by simp [EmitOK], rfl⟩
+      · exact ⟨rfl, lex2_found_value t⟩
+      · exact ⟨by simp [EmitOK], fun _ => rfl⟩
       · exact this.2 it hit
 
 theorem filter_emit_proj (doC : Bool) : ∀ (items : List Item), (∀ it ∈ items, EmitOK doC it) →
